@@ -278,6 +278,18 @@ func (sp *SolverPool) Discharge(ts *TermStore, obls []*Obligation, timeout float
 		}()
 	}
 	wg.Wait()
+	// consistency covers: UNSAT after the call is fine when the path was infeasible before the call already
+	for _, o := range obls {
+		if o.WantSat && o.PreHyp != nil && o.Status == "failed" {
+			pre := &Obligation{Fn: o.Fn, Kind: "cover", Hyp: o.PreHyp, Goal: ts.True(), WantSat: true}
+			pre.Query = ts.Query([]*Term{ts.dropQuantified(pre.Hyp)}, QueryOpts{NoQuantAxioms: true})
+			pre.queryCVC = ts.Query([]*Term{ts.dropQuantified(pre.Hyp)}, QueryOpts{CVC5: true, NoQuantAxioms: true})
+			sp.solveOne(ts, pre, timeout, fast)
+			if pre.Status == "failed" {
+				o.Status, o.Solver = "proved", o.Solver+" (path infeasible before the call)"
+			}
+		}
+	}
 	// an `unknown` that came back at once is suspicious (a solver that could not run): once more, one by one
 	for _, o := range obls {
 		if o.Status == "unknown" && o.Secs < 1.0 && o.Query != "" {
